@@ -154,6 +154,22 @@ def inputs(variant, seed):
     return r(0.9, 3.1, 5), r(0.02, 0.98, 5), gv, tuple(r(0.5, 3.0, 2)), tuple(r(0.9, 3.1, 2)), tuple(r(0.02, 0.98, 2))
 
 
+def kinds_agree(rec, call, g, res):
+    """the vector of conditioning values as list / tuple / pandas Series gives the ndarray result"""
+    import pandas as pd
+
+    for name, conv in (("list", lambda a: [float(v) for v in a]), ("tuple", lambda a: tuple(float(v) for v in a)),
+                       ("Series", lambda a: pd.Series(np.asarray(a, dtype=float)))):
+        try:
+            good = D.compare(call(conv(g)), res)[0]
+            why = "differs from the ndarray result"
+        except Exception as e:  # noqa
+            good, why = False, f"{type(e).__name__}: {e}"[:80]
+        if not good:
+            rec["kindsame"] = False
+            rec["kindbad"] = rec["kindbad"] or f"given as {name}: {why}"
+
+
 def cond_record(vc, rid, case, seed=0, variant=0):
     XV, PV, GIVEN_VEC, GIVEN_SCA, X_SCA, P_SCA = inputs(variant, seed)
     fam, Dn, chain, shape, method = case["fam"], list(case["D"]), case["chain"], case["shape"], case["method"]
@@ -163,7 +179,8 @@ def cond_record(vc, rid, case, seed=0, variant=0):
     if variant == -2:          # f_<name> given as python int (2 / 3): relayed explicitly to the template
         Fx = {n: 2 + names.index(n) % 2 for n in names}
     rec = dict(id=rid, kind="cond", variant=variant, fam=fam, D=Dn, chain=chain, shape=shape, method=method, exc="",
-               shapeok=True, tplrel=0, vecrel=0, parrel=0, fixedok=True, ncmp=0, effective=False, indep=True)
+               shapeok=True, tplrel=0, vecrel=0, parrel=0, fixedok=True, ncmp=0, effective=False, indep=True,
+               kindsame=True, kindbad="")
     const = chain == "const"
     xvec, gvec = shape[0] == "v", shape[1] == "v"
     worst = dict(tpl=0.0, vec=0.0, par=0.0)
@@ -212,6 +229,8 @@ def cond_record(vc, rid, case, seed=0, variant=0):
                     rec["ncmp"] += int(np.size(res))
                     # one independent variate per (row, conditioning value): no value repeated
                     rec["indep"] = rec["indep"] and np.unique(np.asarray(res)).size == int(np.prod(exp_shape))
+                    if gvec and variant == 0 and call == 0:
+                        kinds_agree(rec, lambda gg: cond.draw_sample(x, gg, random_state=rs), g, res)
                     try:   # does the dependence matter?  (the default NormFit instance cannot be evaluated)
                         base = tmpl.draw_sample(x, random_state=rs)
                         rec["effective"] = rec["effective"] or not D.compare(res, np.broadcast_to(
@@ -221,6 +240,8 @@ def cond_record(vc, rid, case, seed=0, variant=0):
                     continue
                 fn = getattr(cond, method)
                 res = fn(x, g)
+                if gvec and variant == 0 and call == 0:
+                    kinds_agree(rec, lambda gg: fn(x, gg), g, res)
                 exp_shape = np.broadcast(np.asarray(x), np.asarray(g)).shape
                 if const and np.shape(res) == np.shape(x):
                     # every parameter is constant in given: the value for every given is the value at x
@@ -382,7 +403,7 @@ def judge(ctx, vc, cases, summary=True, variants=(0,), hists=()):
         for clause in failing.get(r["id"], []):
             ctx.violation(clause, key_of(c),
                           f"exc={r['exc']!r} tplrel={r['tplrel']}e-15 vecrel={r['vecrel']}e-15 "
-                          f"parrel={r['parrel']}e-15 shapeok={r['shapeok']} fixedok={r['fixedok']}", replay=c)
+                          f"parrel={r['parrel']}e-15 shapeok={r['shapeok']} fixedok={r['fixedok']} {r['kindbad']}", replay=c)
     for i, (h, r) in enumerate(zip(hists, hrecs)):
         ctx.case(hist_key(h, i), nontrivial=r["exc"] == "" and any(st[0] in "SF" for st in h["steps"]))
         for clause in failing.get(r["id"], []):
@@ -412,6 +433,7 @@ def selftest(ctx, rec, hrec=None):
                         ("ChainedSameGiven", dict(parrel=10 ** 9)),
                         ("FixedSameForAllGiven", dict(fixedok=False)),
                         ("ResultShape", dict(shapeok=False)),
+                        ("GivenKindsAgree", dict(kindsame=False)),
                         ("SampleRowsIndependent", dict(indep=False, method="draw_sample")),
                         ("Compared", dict(ncmp=0)),
                         ("UnexpectedException", dict(exc="ValueError: x"))):
